@@ -295,6 +295,13 @@ def finish(run, level_text=""):
         path = os.path.join(VERIF, "replays", "%s-%s.json" % (run.pid, h))
         json.dump(body, open(path, "w"), indent=1, default=str)
         out_lines.append("VIOLATION property=%s replay=%s" % (run.pid, path))
+        # a few lines for whoever reads only the log (the replay file has everything)
+        out_lines.append("  violated (%s): %s" % (v["key"], v["what"][:300]))
+        out_lines.append("  failing input: %s" % json.dumps(_short(v["case"], 200), default=str)[:900])
+        for x in real[1:4]:
+            out_lines.append("  also (%s): %s" % (x["key"], json.dumps(_short(x.get("case"), 120), default=str)[:400]))
+        for bkn in run.broken[:3]:
+            out_lines.append("  obligation no longer discharged: %s" % str(bkn.get("obligation"))[:300])
         rc = 1
     elif run.broken:
         body = {"property": run.pid, "kind": "obligation",
@@ -305,6 +312,8 @@ def finish(run, level_text=""):
         path = os.path.join(VERIF, "replays", "%s-obligation-%s.json" % (run.pid, h))
         json.dump(body, open(path, "w"), indent=1, default=str)
         out_lines.append("VIOLATION property=%s replay=%s no-failing-input-found" % (run.pid, path))
+        for bkn in run.broken[:4]:
+            out_lines.append("  obligation no longer discharged: %s || %s" % (str(bkn.get("obligation"))[:300], str(bkn.get("detail"))[:500].replace("\n", " ")))
         rc = 1
     nob = len(run.obligations)
     ndis = sum(1 for _, ok in run.obligations if ok)
